@@ -86,7 +86,7 @@ fn enumerate_small(max_len: usize, alphabet: &[&str], out: &mut Vec<String>) {
     }
 }
 
-fn mutate(rng: &mut Rng, text: &str) -> String {
+pub fn mutate(rng: &mut Rng, text: &str) -> String {
     let tokens = lexer::lex(text);
     let n = tokens.len();
     if n == 0 {
